@@ -9,7 +9,7 @@ that held the visited node."""
 import copy
 
 from vf import core, monitors
-from vf.props._parsework import base_statements
+from vf.props._parsework import base_statements, gram_statements
 
 ID = 'C13'
 LEVEL = 'exploration'
@@ -295,6 +295,7 @@ def run_shard(ctx):
     from mindsdb_sql import parse_sql
     acc = ctx.acc
     base = [('extra', s) for s in EXTRA] + base_statements(ctx.seed, 6000 if ctx.tier == 'quick' else 100000)
+    base += gram_statements(ctx.seed, 3000 if ctx.tier == 'quick' else 15000)
     classes = ('Select', 'Union', 'Intersect', 'Except', 'Insert', 'Update', 'Delete', 'CreateTable')
     for i, (label, text) in enumerate(base):
         if not ctx.mine(i):
